@@ -4,7 +4,7 @@
 //!                          | {"kind":"gen","wb":{..workbook description, see `build`..}}
 //!                          | {"kind":"hex","hex":"<the bytes of a file built by checks/c04.py from a TLC behaviour>","name":".."},
 //!         "gens": 3, "light": false,
-//!         "edit": [] | [{"si": 0-based sheet pick, "mode": "existing"|"at", "pick": n, "r": .., "c": ..,
+//!         "edit": [] | [{"si": 0-based sheet pick, "mode": "existing"|"at"|"class" (+ "class": a cell class, see run), "pick": n, "r": .., "c": ..,
 //!                        "k": "text"|"num"|"bool"|"formula", "v": "..", "b": "<16 hex digits>"}]}
 //!
 //! Protocol of one case (every step is one event; the driver never judges):
@@ -17,7 +17,9 @@
 //!               "obs", "hex"
 //!   Resave A,2..n   save generation k-1, load it: "obs", "hex"
 //!   Edit        (for every edit of the case) the original bytes are loaded afresh and one cell is edited through
-//!               get_cell_mut + set_value_*: "s","r","c" = the cell, "cell" = its projection right after the edit
+//!               get_cell_mut + set_value_*: "s","r","c" = the cell, "cell" = its projection right after the edit,
+//!               "orphans" = if the cell was the master of a shared formula (Cell::get_formula_obj: type shared with a
+//!               ref), the coordinates of the other cells with the same Cell::get_formula_shared_index, else []
 //!   Resave B,1..n   as chain A, starting from the edited workbook
 //! "outcome" of every event: "ok" | "unreadable" (Load only: the library rejects the original) |
 //! "save-err" | "save-panic" | "load-err" | "load-panic" | "project-panic" | "edit-panic".
@@ -910,15 +912,62 @@ fn run(case: &Value) -> Vec<Value> {
             return events;
         }
         let si = (u(ed, "si") as usize) % ns;
-        let r = catch_unwind(AssertUnwindSafe(|| -> (u32, u32, Value, Value) {
+        let r = catch_unwind(AssertUnwindSafe(|| -> (u32, u32, Value, Value, Value) {
             let ws = book.get_sheet_mut(&si).expect("sheet");
             let (col, row) = if so(ed, "mode") == "existing" && !ws.get_cell_collection().is_empty() {
                 let cells = ws.get_cell_collection_sorted();
                 let c = cells[(u(ed, "pick") as usize) % cells.len()];
                 (*c.get_coordinate().get_col_num(), *c.get_coordinate().get_row_num())
+            } else if so(ed, "mode") == "class" {
+                // the pick-th cell of a class: a value kind, "formula" (not shared), "master" / "child" of a shared formula, "link"
+                let want = so(ed, "class");
+                let mut hits: Vec<(u32, u32)> = ws
+                    .get_cell_collection()
+                    .iter()
+                    .filter(|c| {
+                        let shared = c.get_formula_shared_index().is_some();
+                        let master = c.get_formula_obj().map(|f| shared && !f.get_reference().is_empty()).unwrap_or(false);
+                        match want {
+                            "formula" => !c.get_formula().is_empty() && !shared,
+                            "master" => master,
+                            "child" => shared && !master,
+                            "link" => c.get_hyperlink().is_some(),
+                            k => kind_of(c.get_raw_value()) == k && c.get_formula().is_empty(),
+                        }
+                    })
+                    .map(|c| (*c.get_coordinate().get_row_num(), *c.get_coordinate().get_col_num()))
+                    .collect();
+                hits.sort();
+                if hits.is_empty() {
+                    (u(ed, "c"), u(ed, "r"))
+                } else {
+                    let (r, c) = hits[(u(ed, "pick") as usize) % hits.len()];
+                    (c, r)
+                }
             } else {
                 (u(ed, "c"), u(ed, "r"))
             };
+            // is the cell the master of a shared formula (the member that carries text and ref)?  then: the other
+            // members of its group, as the public getters show them before the edit
+            let mut orphans: Vec<Value> = vec![];
+            let master_si: Option<u32> = ws.get_cell((col, row)).and_then(|c| c.get_formula_obj()).and_then(|f| {
+                if f.get_formula_type() == &CellFormulaValues::Shared && !f.get_reference().is_empty() {
+                    Some(*f.get_shared_index())
+                } else {
+                    None
+                }
+            });
+            if let Some(msi) = master_si {
+                let mut others: Vec<(u32, u32)> = ws
+                    .get_cell_collection()
+                    .iter()
+                    .filter(|c| c.get_formula_shared_index() == Some(&msi))
+                    .map(|c| (*c.get_coordinate().get_row_num(), *c.get_coordinate().get_col_num()))
+                    .filter(|rc| *rc != (row, col))
+                    .collect();
+                others.sort();
+                orphans = others.into_iter().map(|(r, c)| json!({"r": cl(r), "c": cl(c)})).collect();
+            }
             let cell = ws.get_cell_mut((col, row));
             match so(ed, "k") {
                 "text" => {
@@ -939,10 +988,11 @@ fn run(case: &Value) -> Vec<Value> {
             }
             let mut st = Styles::new();
             let pc = project_cell(ws.get_cell((col, row)).expect("edited cell"), &mut st);
-            (col, row, pc, st.to_json())
+            (col, row, pc, st.to_json(), Value::Array(orphans))
         }));
         match r {
-            Ok((col, row, pc, sty)) => {
+            Ok((col, row, pc, sty, orphans)) => {
+                m.insert("orphans".into(), orphans);
                 m.insert("s".into(), json!(si + 1));
                 m.insert("r".into(), json!(cl(row)));
                 m.insert("c".into(), json!(cl(col)));
@@ -957,6 +1007,7 @@ fn run(case: &Value) -> Vec<Value> {
                 m.insert("c".into(), json!(0));
                 m.insert("cell".into(), json!({"r": 0, "c": 0, "k": "blank", "v": "", "b": "", "f": "", "rt": "", "s": ""}));
                 m.insert("sty".into(), json!([]));
+                m.insert("orphans".into(), json!([]));
                 m.insert("outcome".into(), json!("edit-panic"));
                 events.push(Value::Object(m));
                 return events;
